@@ -432,6 +432,10 @@ func runC01(env *Env) {
 			results[i] = make([]string, len(cases[i]))
 			var p *c01Peer
 			for k, ks := range cases[i] {
+				if env.GenOnly {
+					results[i][k] = "-"
+					continue
+				}
 				if p == nil || c.transport == "dtls" {
 					if p != nil {
 						p.stop()
